@@ -352,6 +352,21 @@ func c14CheckIter(c *fw.Case, it sstables.SSTableIteratorI, model map[string]*c1
 	}
 	sort.Strings(keys)
 	i := 0
+	// what the iterator hands out is kept (not copied) and looked at again when the iteration is over: a consumer that
+	// collects the pairs, or compares each key with the previous one, relies on them staying what they were
+	var keptK, keptV [][]byte
+	defer func() {
+		for j := range keptK {
+			if j < len(keys) && string(keptK[j]) != keys[j] {
+				c.Violate("memstore/"+name+"/iter-key-changed-after-it-was-returned", "%s: entry %d was returned as key %x; after the iteration the same slice reads %x", name, j, keys[j], keptK[j])
+				return
+			}
+			if j < len(keys) && !model[keys[j]].tomb && !bytes.Equal(keptV[j], model[keys[j]].val) {
+				c.Violate("memstore/"+name+"/iter-value-changed-after-it-was-returned", "%s: the value returned for key %x reads %s after the iteration", name, keys[j], fw.Hex(keptV[j]))
+				return
+			}
+		}
+	}()
 	for {
 		k, v, err := it.Next()
 		if err != nil {
@@ -361,6 +376,7 @@ func c14CheckIter(c *fw.Case, it sstables.SSTableIteratorI, model map[string]*c1
 			}
 			break
 		}
+		keptK, keptV = append(keptK, k), append(keptV, v)
 		if i >= len(keys) {
 			c.Violate("memstore/"+name+"/iter-extra", "%s: extra entry %x", name, k)
 			return
